@@ -40,6 +40,11 @@ class BatchScenario:
         # the loss is a callable *object* carrying attributes a river metric would have (bigger_is_better = True ...):
         # for a plain callable they mean nothing - the loss is used as given
         self.loss_object = kw.get("loss_object", False)
+        # original mode only: the explainer is built with a product MarginalImputer (which the original mode does not use),
+        # and / or its storage holds other rows than the data set being explained - the background of the original mode is
+        # the data set itself, one common row per evaluation
+        self.imputer_kind = kw.get("imputer_kind", None)
+        self.foreign = kw.get("foreign", False)
 
     def to_json(self):
         d = dict(self.__dict__)
@@ -141,7 +146,13 @@ def run(sc, tape_mode="log", script=None, provider=None):
     if sc.cls == "interval":
         ex = IntervalSage(model, names, loss, interval_length=sc.interval, storage_length=sc.storage_len, **kw)
     else:
-        ex = BatchSage(model, names, loss, **kw)
+        if sc.imputer_kind == "product" and sc.mode in ("original", "one_original"):
+            from ixai.storage import BatchStorage
+            from ixai.imputer import MarginalImputer
+            st_ = BatchStorage(store_targets=True)
+            ex = BatchSage(model, names, loss, storage=st_, imputer=MarginalImputer(model, "product", st_), **kw)
+        else:
+            ex = BatchSage(model, names, loss, **kw)
     # harness-side wrappers (instance level) around imputer.impute and storage.update
     from harness.gen_explainer import find_part
     from ixai.imputer.base import BaseImputer
@@ -297,9 +308,14 @@ def run(sc, tape_mode="log", script=None, provider=None):
         if sc.cls == "batch":
             data = [({nm: float(v) for nm, v in zip(names, xs)}, y) for xs, y in sc.rows]
             if sc.mode in ("many", "original"):
-                for x, y in data:
-                    ex.update_storage(x, y)
-                bg, _ = storage_rows()
+                if sc.foreign and sc.mode == "original":
+                    for x, y in data:
+                        ex.update_storage({nm: v + 5.0 for nm, v in x.items()}, y)
+                    bg = [[red(v) for v in xs] for xs, _ in sc.rows]       # the data set itself, not the storage
+                else:
+                    for x, y in data:
+                        ex.update_storage(x, y)
+                    bg, _ = storage_rows()
                 x_data, y_data = [x for x, _ in data], [y for _, y in data]
                 # the data in other sequence representations, the arguments by keyword
                 if sc.seed % 3 == 0:
